@@ -80,5 +80,5 @@ def run(ctx):
     val = {"fill": 1, "layout": 2, "cfg": [3, 5, 1, 2, 4], "pick": 7}
     quick = ctx.tier == "quick"
     sys_ops = [n for n in set(names) if sched.OPS[n]["group"] in ("storage", "loop") or n in ("inline", "inline_window", "bind_expr", "extract_subproc")]
-    run_systematic(ctx, distinct_step_cases(ctx.shard, ctx.nshards, sys_ops, val, params=(0, 1) if quick else (0, 1, 2, 5)), guarded(ctx, check_case), keep_one_in=32 if quick else 2, label="template-single-steps", presharded=True)
+    run_systematic(ctx, distinct_step_cases(ctx.shard, ctx.nshards, sys_ops, val, params=(0, 1, 2, 3) if quick else (0, 1, 2, 3, 5, 7)), guarded(ctx, check_case), keep_one_in=80 if quick else 3, label="template-single-steps", presharded=True)
     run_cases(ctx, c02.case_strategy(names), guarded(ctx, check_case), ctx.budget(256, 2048))
